@@ -29,6 +29,8 @@ opts (every one optional; a missing/None option is drawn from rng):
                             indels 8 bp apart, shiftable indels in repeats are allowed and actively produced.
   chrom=None                chromosome name (never "1","10","22": aldy's genome detection looks at those)
   tandems=False             add structure.tandems [['1', <fusion or 2>]]
+  union=False               bool (never drawn from rng): add a major allele whose functional variants are the union of two other majors' (so that two
+                            different allele combinations explain the same evidence) and give two majors the same silent sub-allele
 
 desc (JSON-serialisable, everything 0-based half-open unless called *_1based):
   name, pseudogene (str|None), refseq (str), exons [[s,e]..] (RefSeq), cn_regions [names], region_order [names in
@@ -187,7 +189,8 @@ def _to_genome(b, n, idx, op):
 # ----------------------------------------------------------------------------------------------------------------------
 def generate(rng, **opts):
     o = dict(name="GEN", length=None, strands=None, pseudogene=None, refseq_span=None, n_exons=None, n_alleles=None,
-             kinds=None, deletion=None, fusions=None, fusion_core=None, simulation_friendly=True, chrom=None, tandems=False)
+             kinds=None, deletion=None, fusions=None, fusion_core=None, simulation_friendly=True, chrom=None, tandems=False,
+             union=False)
     unknown = set(opts) - set(o)
     assert not unknown, f"unknown options {unknown}"
     o.update({k: v for k, v in opts.items() if v is not None})
@@ -207,6 +210,7 @@ def generate(rng, **opts):
         fusions = [f for f in o["fusions"] if pseudo]
     fusion_core = (rng.random() < 0.3) if o["fusion_core"] is None else bool(o["fusion_core"])
     chrom = o["chrom"] or rng.choice(["2", "7", "12", "16", "20"])
+    union = bool(o["union"])      # default off and NOT drawn from rng: databases of existing seeds stay what they were
     pname = name + "P" if pseudo else None
 
     # ---- regions in transcription orientation: up e1 i1 e2 ... eK down ------------------------------------------------
@@ -301,15 +305,27 @@ def generate(rng, **opts):
         if vs in majors or clash(vs):
             continue
         majors.append(vs)
+    if union and len(majors) >= 3:
+        for _ in range(20):
+            a, b = rng.sample(majors[1:], 2)
+            u = sorted([list(v) for v in {tuple(v) for v in a + b}])
+            if u not in majors and not clash(u):
+                majors.append(u)
+                break
     alleles = {}
     count = 0
+    shared_silent = sorted(rng.sample(silent_pool, 1)) if (union and silent_pool) else None
     for mi, fvs in enumerate(majors):
         n_minor = 1 + (1 if count + (len(majors) - mi) < n_all and rng.random() < 0.6 else 0) + \
                   (1 if count + (len(majors) - mi) + 1 < n_all and rng.random() < 0.3 else 0)
+        if union and mi < 2:
+            n_minor = max(n_minor, 2)
         seen = []
         for sub in range(n_minor):
             for _ in range(30):
                 svs = [] if (sub == 0 and rng.random() < 0.7) else sorted(rng.sample(silent_pool, min(len(silent_pool), rng.choice([1, 1, 2]))))
+                if shared_silent is not None and sub == 1 and mi < 2:
+                    svs = shared_silent
                 if svs in seen or clash(fvs + svs):
                     continue
                 seen.append(svs)
@@ -380,7 +396,7 @@ def generate(rng, **opts):
             "region_order": reg_names, "friendly": friendly, "alleles": alleles, "variants": pool, "builds": builds,
             "opts": {"length": n, "strands": strands, "pseudogene": pseudo, "refseq_span": span, "n_exons": k_ex, "n_alleles": n_all,
                      "kinds": kinds, "deletion": deletion, "fusions": fusions, "fusion_core": fusion_core,
-                     "simulation_friendly": friendly, "chrom": chrom, "spacer": spacer}}
+                     "simulation_friendly": friendly, "chrom": chrom, "spacer": spacer, "union": union}}
     return _yaml(desc, o["tandems"]), desc
 
 
